@@ -36,12 +36,26 @@ pub struct Cfg {
     /// (4 = (0,3,3,4) is used by C27 only)
     pub mesh: u8,
     /// 0: empty start; 1: locally subscribed to T1,T2 and all three peers connected;
+    /// 3: all three peers connected, P1 and P2 subscribed to both topics, the node itself
+    ///    subscribed to nothing (the fanout situation: publishes go to fanout peers);
     /// 2: as 1, then P2 (inbound) subscribed to both topics (and grafted), then P1 (outbound)
     ///    subscribed to both topics — with mesh parameters 3 this is the state in which the mesh
     ///    has mesh_n_low members but fewer than mesh_outbound_min outbound ones
     pub start: u8,
     /// entropy seed of every execution of this configuration
     pub seed: u64,
+    /// name of the third topic, which only remote peers subscribe to (we never do): 0 = "A0"
+    /// (sorts before T1, T2), 1 = "T15" (between T1 and T2), 2 = "Z9" (after both)
+    #[serde(default)]
+    pub other: u8,
+}
+
+pub fn other_topic(o: u8) -> &'static str {
+    match o {
+        0 => "A0",
+        1 => "T15",
+        _ => "Z9",
+    }
 }
 
 #[derive(Clone, Copy, Debug)]
@@ -92,6 +106,9 @@ pub enum Act {
     Heartbeat,
     /// three times (advance one interval, heartbeat)
     Ticks,
+    /// the application publishes to topic t (offered while the node is not subscribed to t, so
+    /// that the fanout is used and a later JOIN starts from a non-empty fanout)
+    Publish(u8),
 }
 
 impl Act {
@@ -111,6 +128,7 @@ impl Act {
             Act::Score(..) => "Score",
             Act::Advance(_) => "Advance",
             Act::Heartbeat | Act::Ticks => "Heartbeat",
+            Act::Publish(_) => "Publish",
         }
     }
 }
@@ -182,6 +200,9 @@ pub struct MeshSys {
     subs: [[bool; 2]; 3],
     local: [bool; 2],
     app: [i8; 3],
+    /// the remote's subscription to the third topic
+    other_sub: [bool; 3],
+    published: u32,
     /// reference backoff: (peer, topic) -> absolute virtual ns until which the pair is backed off
     deadline: BTreeMap<(u8, u8), u64>,
     marks: Vec<String>,
@@ -204,8 +225,14 @@ impl MeshSys {
             }
         }
         let high = mesh_params(cfg.mesh).3;
-        let mut s = MeshSys { prop, cfg: cfg.clone(), roles: rl, high, node: GsNode::new(beh), connected: [false; 3], subs: [[false; 2]; 3], local: [false; 2], app: [0; 3], deadline: BTreeMap::new(), marks: vec![] };
-        if cfg.start >= 1 {
+        let mut s = MeshSys { prop, cfg: cfg.clone(), roles: rl, high, node: GsNode::new(beh), connected: [false; 3], subs: [[false; 2]; 3], local: [false; 2], app: [0; 3], other_sub: [false; 3], published: 0, deadline: BTreeMap::new(), marks: vec![] };
+        if cfg.start == 3 {
+            for a in [Act::Connect(0), Act::Connect(1), Act::Connect(2), Act::Sub(0, 3), Act::Sub(1, 3)] {
+                if let Err(m) = s.step(&a) {
+                    panic!("preamble violates the oracle: {m}");
+                }
+            }
+        } else if cfg.start >= 1 {
             let mut pre = vec![Act::LocalSub(0), Act::LocalSub(1), Act::Connect(0), Act::Connect(1), Act::Connect(2)];
             if cfg.start == 2 {
                 pre.push(Act::Sub(1, 3));
@@ -259,11 +286,16 @@ impl MeshSys {
                 self.node.disconnect(pid(p));
                 self.connected[p as usize] = false;
                 self.subs[p as usize] = [false; 2];
+                self.other_sub[p as usize] = false;
             }
             Act::Sub(p, mask) | Act::Unsub(p, mask) => {
                 let sub = matches!(a, Act::Sub(..));
                 let ts = mask_topics(mask);
-                let entries: Vec<(bool, &str)> = ts.iter().map(|t| (sub, TOPICS[*t as usize])).collect();
+                let mut entries: Vec<(bool, &str)> = ts.iter().map(|t| (sub, TOPICS[*t as usize])).collect();
+                if mask & 4 != 0 {
+                    entries.push((sub, other_topic(self.cfg.other)));
+                    self.other_sub[p as usize] = sub;
+                }
                 self.node.inject(pid(p), &node::enc_subs(&entries)).expect("well-formed rpc");
                 for t in ts {
                     self.subs[p as usize][t as usize] = sub;
@@ -321,6 +353,17 @@ impl MeshSys {
             Act::Advance(k) => mc::vclock::advance(if k == 0 { HEARTBEAT } else { Duration::from_secs(5) }),
             Act::Heartbeat => self.node.heartbeat(),
             Act::Ticks => unreachable!("handled by step"),
+            Act::Publish(t) => {
+                self.published += 1;
+                if !self.node.beh.verif_fanout().get(TOPICS[t as usize]).map_or(true, |f| f.is_empty()) {
+                    self.marks.push("publish.with-existing-fanout".into());
+                }
+                let _ = self.node.beh.publish(thash(t), format!("m{}", self.published).into_bytes());
+                self.node.pump();
+                if !self.node.beh.verif_fanout().get(TOPICS[t as usize]).map_or(true, |f| f.is_empty()) {
+                    self.marks.push("publish.fanout-nonempty".into());
+                }
+            }
         }
     }
 
@@ -334,6 +377,19 @@ impl MeshSys {
         let code_backoff: Vec<Vec<bool>> = (0..3u8).map(|p| (0..2u8).map(|t| self.node.beh.verif_backoff_time(&thash(t), &pid(p)).is_some_and(|b| b > inow)).collect()).collect();
         self.node.notes.clear();
         self.node.app_events.clear();
+        if let Act::LocalSub(t) = *a {
+            if !self.node.beh.verif_fanout().get(TOPICS[t as usize]).map_or(true, |f| f.is_empty()) {
+                self.marks.push("join-from-nonempty-fanout".into());
+            }
+        }
+        if matches!(a, Act::Prune(..) | Act::Unsub(..) | Act::LocalUnsub(_) | Act::Heartbeat) {
+            // a removal step while some peer is subscribed to the third topic (which has no mesh)
+            for p in 0..3u8 {
+                if self.other_sub[p as usize] && before.iter().filter(|m| m.contains(&p)).count() == 2 {
+                    self.marks.push("step-with-peer-in-two-meshes-and-unshared-topic".into());
+                }
+            }
+        }
         self.apply(a);
         let now_after = mc::vclock::now_ns();
         // ---- what went out on the wire
@@ -578,6 +634,8 @@ impl Sys for MeshSys {
                     v.push(Act::Prune(p, 1, b));
                 }
                 v.push(Act::Prune(p, 3, 1));
+                // third topic (only the remote subscribes)
+                v.push(if self.other_sub[p as usize] { Act::Unsub(p, 4) } else { Act::Sub(p, 4) });
                 if self.app[p as usize] != -1 {
                     v.push(Act::Score(p, -1));
                 }
@@ -596,6 +654,10 @@ impl Sys for MeshSys {
         }
         for t in 0..2u8 {
             v.push(if self.local[t as usize] { Act::LocalUnsub(t) } else { Act::LocalSub(t) });
+        }
+        if !self.local[0] {
+            // topic symmetry: publishes use T1
+            v.push(Act::Publish(0));
         }
         v.push(Act::Advance(0));
         v.push(Act::Advance(1));
@@ -623,7 +685,7 @@ impl Sys for MeshSys {
         let mut s = String::new();
         use std::fmt::Write;
         let rel: Vec<((u8, u8), u64)> = self.deadline.iter().filter(|(_, d)| **d > now).map(|(k, d)| (*k, d - now)).collect();
-        write!(s, "{:?}|{:?}|{:?}|{:?}|{:?}|", self.connected, self.subs, self.local, self.app, rel).unwrap();
+        write!(s, "{:?}|{:?}|{:?}|{:?}|{:?}|{:?}|", self.connected, self.subs, self.local, self.app, rel, self.other_sub).unwrap();
         write!(s, "{:?}|{:?}|{:?}|", self.node.mesh(), self.node.beh.verif_fanout(), self.node.beh.verif_explicit_peers()).unwrap();
         for p in 0..3u8 {
             let id = pid(p);
